@@ -39,10 +39,10 @@ CONSTANTS Sizes,      \* <<n1,..,nk>>  sizes of the parameter dimensions, 1 <= k
           Methods,    \* subset of {"isnull","isfinite"}
           KindSel,    \* {"cells"}: every slot independently;  else a set of class names, one class per location
           Modes,      \* subset of {"find","parse"}
-          ReqKinds,   \* subset of {"combos","cases","mixed","partial","foreigncombo","foreigncase"}
+          ReqKinds,   \* subset of {"combos","cases","mixed","partial","foreigncombo","foreigncase","keyorder","keyordercombo"}
           LabelBy,    \* "given": harvest_cases labels a tuple case with the fn_args it is GIVEN (those returned by
                       \* find_missing_cases, i.e. the dataset's order) | "signature": with the runner's own argument order
-          Rule        \* "all" | "anyvar" | "anypos" | "firstvar" | "swap" | "keyfalse" | "ignoreforeign" | "prepend" | "twice"
+          Rule        \* "all" | "anyvar" | "anypos" | "firstvar" | "swap" | "keyfalse" | "ignoreforeign" | "dedupvalues" | "prepend" | "twice"
 
 VARIABLES mode, method, cell0, cell, pc, cur, missing, missing2, req, k, newcases,
           grown       \* the harvest created a coordinate label the dataset did not have
@@ -175,6 +175,19 @@ Request(kind) ==
            [kind  |-> kind,
             cases |-> [i \in 1..NLoc |-> [AsSetting(GridByRank[i]) EXCEPT ![ND + 1] = i % 2]],
             combos |-> <<>>]
+      [] kind = "keyorder" ->       \* every location by cases (dicts); every other dict lists its keys in REVERSE
+                                    \* order, so that different locations have the same sequence of values
+           [kind  |-> kind,
+            cases |-> [i \in 1..NLoc |-> AsSetting(GridByRank[i])],
+            orders |-> [i \in 1..NLoc |-> IF i % 2 = 0 THEN Rev(Upto(ND)) ELSE Upto(ND)],
+            combos |-> <<>>]
+      [] kind = "keyordercombo" ->  \* the first two dimensions by such dicts, the others by combos on top
+           [kind  |-> kind,
+            cases |-> FlattenSeq([a \in 1..Sizes[1] |-> [b \in 1..Sizes[2] |->
+                          [d \in DimsX |-> IF d = 1 THEN a ELSE IF d = 2 THEN b ELSE 0]]]),
+            orders |-> FlattenSeq([a \in 1..Sizes[1] |-> [b \in 1..Sizes[2] |->
+                          IF (a + b) % 2 = 1 THEN <<2, 1>> ELSE <<1, 2>>]]),
+            combos |-> [i \in 1..(ND - 2) |-> [dim |-> i + 2, vals |-> Upto(Sizes[i + 2])]]]
       [] kind = "partial" ->    \* only the last dimension is fixed: the whole slab must be null
            [kind  |-> kind,
             cases |-> <<Blank>>,
@@ -191,7 +204,19 @@ ApplyCombos(acc, combos) ==
 \* for case in cases: for setting in itertools.product of the combo values: merge case and setting
 Expand(r) == FlattenSeq([i \in 1..Len(r.cases) |-> ApplyCombos(<<r.cases[i]>>, r.combos)])
 
-UsableReqKinds == { q \in ReqKinds : (q \in {"mixed", "partial"}) => ND >= 2 }
+(* the order in which each requested dict lists its keys (the property does not depend on it) *)
+OrdersOf(r) == IF "orders" \in DOMAIN r THEN r.orders
+               ELSE [i \in 1..Len(r.cases) |-> SelectSeq(Upto(ND + 1), LAMBDA d : r.cases[i][d] # 0)]
+KeySeq(r, i) == OrdersOf(r)[i] \o [c \in 1..Len(r.combos) |-> r.combos[c].dim]
+ExpandKeys(r) == FlattenSeq([i \in 1..Len(r.cases) |->
+                    [j \in 1..Len(ApplyCombos(<<r.cases[i]>>, r.combos)) |-> KeySeq(r, i)]])
+ValueSeq(r, n) == [i \in 1..Len(r.keys[n]) |-> r.list[n][r.keys[n][i]]]
+MakeRequest(q) == LET r == Request(q)
+                  IN  [kind |-> r.kind, cases |-> r.cases, combos |-> r.combos, orders |-> OrdersOf(r),
+                       list |-> Expand(r), keys |-> ExpandKeys(r)]
+
+UsableReqKinds == { q \in ReqKinds : /\ (q \in {"mixed", "partial", "keyorder"}) => ND >= 2
+                                     /\ (q = "keyordercombo") => ND >= 3 }
 
 -----------------------------------------------------------------------------
 Init ==
@@ -204,8 +229,8 @@ Init ==
     /\ k = 1 /\ newcases = <<>>
     /\ grown = FALSE
     /\ IF mode = "find"
-          THEN pc = "scan1" /\ req = [kind |-> "none", cases |-> <<>>, combos |-> <<>>, list |-> <<>>]
-          ELSE pc = "parse" /\ \E q \in UsableReqKinds : req = Request(q) @@ [list |-> Expand(Request(q))]
+          THEN pc = "scan1" /\ req = [kind |-> "none", cases |-> <<>>, combos |-> <<>>, orders |-> <<>>, list |-> <<>>, keys |-> <<>>]
+          ELSE pc = "parse" /\ \E q \in UsableReqKinds : req = MakeRequest(q)
 
 Visit1 ==
     /\ pc = "scan1"
@@ -245,18 +270,30 @@ Visit2 ==
 VisitReq ==
     /\ pc = "parse"
     /\ LET e == req.list          \* the double loop, unrolled once when the request is made
-       IN  /\ newcases' = IF CodeMissing(cell, method, e[k]) THEN Report(newcases, e[k]) ELSE newcases
-           /\ IF k = Len(e) THEN pc' = "done" /\ k' = k ELSE pc' = pc /\ k' = k + 1
+           dup == Rule = "dedupvalues" /\ \E n \in 1..(k - 1) : ValueSeq(req, n) = ValueSeq(req, k)
+       IN  /\ newcases' = IF ~dup /\ CodeMissing(cell, method, e[k]) THEN Report(newcases, e[k]) ELSE newcases
+           /\ IF k = Len(e) THEN pc' = "harvestreq" /\ k' = k ELSE pc' = pc /\ k' = k + 1
     /\ UNCHANGED <<mode, method, cell0, cell, cur, missing, missing2, req, grown>>
 
-Next == Visit1 \/ HarvestReported \/ Visit2 \/ VisitReq \/ (pc = "done" /\ UNCHANGED vars)
+(* harvest_cases(parse_into_cases(...)): the function is run at the locations returned.  Only those that name
+   every dimension with a label the dataset has matter for what is missing afterwards. *)
+FullLoc(s) == [d \in Dims |-> s[d]]
+IsFullLoc(s) == ~Foreign(s) /\ \A d \in Dims : s[d] >= 1 /\ s[d] <= Sizes[d]
+HarvestRequested ==
+    /\ pc = "harvestreq"
+    /\ LET targets == { FullLoc(newcases[i]) : i \in { j \in 1..Len(newcases) : IsFullLoc(newcases[j]) } }
+       IN  cell' = [l \in Locs |-> IF l \in targets THEN [s \in 1..NS |-> "data"] ELSE cell[l]]
+    /\ pc' = "scan2" /\ cur' = First
+    /\ UNCHANGED <<mode, method, cell0, missing, missing2, req, k, newcases, grown>>
+
+Next == Visit1 \/ HarvestReported \/ Visit2 \/ VisitReq \/ HarvestRequested \/ (pc = "done" /\ UNCHANGED vars)
 
 Spec == Init /\ [][Next]_vars
 
 -----------------------------------------------------------------------------
 (* INVARIANTS C13 *)
 
-TypeOK == /\ pc \in {"scan1", "harvest", "scan2", "parse", "done"}
+TypeOK == /\ pc \in {"scan1", "harvest", "scan2", "parse", "harvestreq", "done"}
           /\ cur \in Locs
 
 (* locations with any data are never reported *)
@@ -277,12 +314,18 @@ ExactlyTheMissing == (mode = "find" /\ pc # "scan1") => missing = OracleMissing(
 SecondScanEmpty == (mode = "find" /\ pc = "done") => missing2 = <<>>
 (* ... and no coordinate label the dataset did not already have *)
 NoNewLabels == ~grown
-HarvestTouchesOnlyReported ==
+HarvestTouchesOnlyReported == mode = "find" =>
     \A l \in Locs : (cell[l] # cell0[l]) => \E i \in 1..Len(missing) : missing[i] = l
 
 (* requested locations: absent coordinates or no data at all, in the order requested *)
-ParseExact == (mode = "parse" /\ pc = "done") =>
+ParseExact == (mode = "parse" /\ pc \in {"harvestreq", "done"}) =>
     newcases = SelectSeq(Expand(req), LAMBDA s : WantedS(cell0, method, s))
+
+(* ... whatever order each requested dict lists its keys in; and harvesting what parse_into_cases returned
+   leaves no requested location of the dataset without data *)
+RequestedNowPresent == (mode = "parse" /\ pc = "done") =>
+    \A i \in 1..Len(missing2) :
+        ~\E n \in 1..Len(req.list) : IsFullLoc(req.list[n]) /\ FullLoc(req.list[n]) = missing2[i]
 
 -----------------------------------------------------------------------------
 (* emission for the replay into the real functions (vx/props/C13.py) *)
@@ -296,6 +339,6 @@ EmitCase ==
                                          missing |-> missing, npartial |-> NPartial])>>)
            ELSE PrintT(<<"CASE", ToJson([mode |-> mode, method |-> method, cells |-> CellsOut,
                                          kind |-> req.kind, cases |-> req.cases, combos |-> req.combos,
-                                         list |-> req.list,
-                                         expect |-> newcases, npartial |-> NPartial])>>)
+                                         orders |-> req.orders, list |-> req.list,
+                                         expect |-> newcases, missing2 |-> missing2, npartial |-> NPartial])>>)
 =============================================================================
